@@ -21,6 +21,7 @@ type Env struct {
 	preNames  map[string]Val
 	preState  *State
 	freeCells map[string]Val // captured variables of a closure whose contract is being applied: name -> cell
+	at        *ssa.BasicBlock // loop header the expression is evaluated at (name resolution)
 	goal      bool // evaluating a proof goal (witness hints may be used in positive positions)
 	neg       bool
 }
@@ -144,6 +145,15 @@ func (env *Env) lookup(name string) (Val, bool) {
 				return sv, true
 			}
 		}
+		// a name with several SSA definitions, looked up at a loop header: the definition that
+		// dominates the header and is dominated by every other dominating definition (the latest)
+		if env.at != nil {
+			if v := fr.resolveAt(name, env.at); v != nil {
+				if sv, ok2 := fr.vals[v]; ok2 {
+					return sv, true
+				}
+			}
+		}
 	}
 	for _, g := range fx.e.CS.Ghosts {
 		if g.Name == name {
@@ -194,6 +204,57 @@ func (fx *FX) addrOfTerm(t Term, pt types.Type) *Addr {
 		return &Addr{Kind: "heapobj", Obj: t, Base: pt, FTyp: pt, SName: fx.e.W.SortOf(pt)}
 	}
 	return &Addr{Kind: "box", Obj: t, Base: pt, FTyp: pt}
+}
+
+func (fr *frame) resolveAt(name string, at *ssa.BasicBlock) ssa.Value {
+	if fr.dbgAll == nil {
+		fr.dbgAll = map[string][]ssa.Value{}
+		for _, b := range fr.fn.Blocks {
+			for _, ins := range b.Instrs {
+				if t, ok := ins.(*ssa.DebugRef); ok && !t.IsAddr && t.Expr != nil {
+					n := types.ExprString(t.Expr)
+					dup := false
+					for _, o := range fr.dbgAll[n] {
+						if o == t.X {
+							dup = true
+						}
+					}
+					if !dup {
+						fr.dbgAll[n] = append(fr.dbgAll[n], t.X)
+					}
+				}
+			}
+		}
+	}
+	var best ssa.Value
+	var bestBlock *ssa.BasicBlock
+	bestIdx := -1
+	for _, v := range fr.dbgAll[name] {
+		ins, ok := v.(ssa.Instruction)
+		if !ok {
+			continue // parameters and constants are found by the ordinary lookup
+		}
+		b := ins.Block()
+		if b == nil || !b.Dominates(at) {
+			continue
+		}
+		if b == at {
+			// only phis of the header itself are defined at the header
+			if _, isPhi := v.(*ssa.Phi); !isPhi {
+				continue
+			}
+		}
+		idx := 0
+		for k, in2 := range b.Instrs {
+			if in2 == ins {
+				idx = k
+			}
+		}
+		if best == nil || (bestBlock != b && bestBlock.Dominates(b)) || (bestBlock == b && idx > bestIdx) {
+			best, bestBlock, bestIdx = v, b, idx
+		}
+	}
+	return best
 }
 
 func (fr *frame) debugNames() map[string]ssa.Value {
@@ -312,7 +373,7 @@ func (fx *FX) evalExpr(env *Env, e Expr) Val {
 		// absolute array index a = off(x)+q so that the trigger select(array, a) has no arithmetic
 		anchorPat := ""
 		if len(t.Vars) == 1 && (t.Sorts[0] == "int" || t.Sorts[0] == "int64") {
-			if ax := findAnchor(t.Body, t.Vars[0]); ax != nil {
+			if ax := findAnchor(expandMacros(fx.e.CS, t.Body), t.Vars[0]); ax != nil {
 				if xv, ok := fx.tryEval(env, ax); ok && xv.T.Sort == SSlice && xv.Typ != nil {
 					v := t.Vars[0]
 					if o, ok := env.bound[v]; ok {
@@ -746,6 +807,23 @@ func (fx *FX) evalCall(env *Env, t *ECall) Val {
 		}
 		h, _ := fx.mapRead(env.st, x.T, k.T, mt)
 		return Val{T: h}
+	case "deepid":
+		// deepid(s): abstract identity of a slice's deep contents - a function of its offset, length,
+		// nil-ness and the array of its own region only (reflect.DeepEqual on two slices of the same
+		// type is equality of these, while the memory of the element type is the same for both)
+		x := arg(0)
+		sl, ok := x.Typ.Underlying().(*types.Slice)
+		if x.T.Sort != SSlice || !ok {
+			env.fail("deepid needs a typed slice")
+		}
+		es := w.SortOf(sl.Elem())
+		fn := "deepid_" + sortID(es)
+		w.Declare(fn, fmt.Sprintf("(declare-fun %s ((_ BitVec 64) (_ BitVec 64) Bool %s) Int)", fn, SArr(SBV64, es)))
+		mem := fx.comp(env.st, "M:"+sortID(es), SArr(SInt, SArr(SBV64, es)))
+		return Val{T: app(fn, SInt, sOff(x.T), sLen(x.T), IdEq(sReg(x.T), T("0", SInt)), Select(mem, sReg(x.T)))}
+	case "streq":
+		// content equality of two strings (Go's == on strings)
+		return Val{T: fx.strEq(arg(0).T, arg(1).T)}
 	case "isnan":
 		x := arg(0)
 		return Val{T: app("fp.isNaN", SBool, x.T)}
